@@ -334,9 +334,19 @@ def shrink(case, fails, tag):
                 c = copy.deepcopy(cur)
                 c["ops"][k] = ["pad", ["A", 0, 0, 1, 1]]
                 cands.append(c)
+        # drop candidates the driver cannot even set up (e.g. start frame beyond a reduced frame count)
+        cands = [c for c in cands if c.get("n") is None or (0 <= c.get("frame", 0) < c["n"])]
         if not cands:
             break
-        verdicts = fails(cands, tag)
+        try:
+            verdicts = fails(cands, tag)
+        except Exception:  # noqa: BLE001 — an invalid candidate crashed the driver: judge one by one
+            verdicts = []
+            for c in cands:
+                try:
+                    verdicts.append(fails([c], tag)[0])
+                except Exception:  # noqa: BLE001
+                    verdicts.append(False)
         nxt = next((c for c, v in zip(cands, verdicts) if v), None)
         if nxt is None:
             break
